@@ -1205,5 +1205,40 @@ seed("c13-collector-without-pipe", "C13", "R-collector-with-pipe", "conn.go",
 		var r *io.PipeReader
 		r, c.bdatPipe = io.Pipe()""", "an empty first chunk creates the collector but no pipe: a later RCPT is accepted and has no status slot")
 
+seed("c16-client-strips-first-continuation-only", "C16", "R-client-parse", "client.go",
+"""strings.ReplaceAll(msg, "\\n"+parts[0]+" ", "\\n")""", """strings.Replace(msg, "\\n"+parts[0]+" ", "\\n", 1)""", "a three-line verdict keeps the enhanced code on its third line")
+seed("c18-readresponse-plain-error", "C18", "R-client-parse", "client.go",
+"""	if protoErr, ok := err.(*textproto.Error); ok {
+		err = toSMTPErr(protoErr)
+	}
+	return code, msg, err""", """	if protoErr, ok := err.(*textproto.Error); ok {
+		if protoErr.Code < 400 {
+			return code, msg, fmt.Errorf("smtp: unexpected reply: %d %s", protoErr.Code, protoErr.Msg)
+		}
+		err = toSMTPErr(protoErr)
+	}
+	return code, msg, err""", "a 251 verdict is not an SMTPError: Close stops in the middle of the replies")
+seed("c07-bdat-timeout-returns", "C07", "R-failed-chunk-aborts", "conn.go",
+"""	n, err := io.Copy(c.bdatPipe, chunk)
+	if err == nil && n != int64(size) {""", """	n, err := io.Copy(c.bdatPipe, chunk)
+	if neterr, ok := err.(net.Error); ok && neterr.Timeout() {
+		c.writeResponse(421, EnhancedCode{4, 4, 2}, "Idle timeout, bye bye")
+		return
+	}
+	if err == nil && n != int64(size) {""", "a read timeout inside a chunk is answered 421 and the handler returns with the pipe still open")
+seed("c15-notify-checker-normalises", "C15", "R-notify-checker-exact", "conn.go",
+"""	for _, val := range values {
+		switch val {""", """	for _, val := range values {
+		val = DSNNotify(strings.ToUpper(strings.TrimSpace(string(val))))
+		switch val {""", "NEVER\\r\\n passes the check and is written raw")
+seed("c20-hostname-takes-lock", "C20", "R-callback-reentrancy", "conn.go",
+"""func (c *Conn) Hostname() string {
+	return c.helo
+}""", """func (c *Conn) Hostname() string {
+	c.locker.Lock()
+	defer c.locker.Unlock()
+	return c.helo
+}""", "a backend calling Hostname from Reset/Logout deadlocks")
+
 json.dump(S, open(os.path.join(os.path.dirname(os.path.abspath(__file__)), "bank.json"), "w"), indent=1)
 print(len(S), "seeds")
